@@ -81,6 +81,8 @@ def canon(v):
         return ("<dict>", tuple(sorted((str(k), canon(x)) for k, x in v.items())))
     if isinstance(v, ResultLike):
         return ("<ResultLike>", v.term)
+    if isinstance(v, DataLike):
+        return ("<DataLike>", v.term)
     if hasattr(v, "__dataclass_fields__"):
         return f"<{type(v).__name__} {v!r}>"  # e.g. pipefunc Resources handed to the function
     if isinstance(v, (set, frozenset)):
@@ -180,6 +182,10 @@ def make_exc(kind: str):
         return StopIteration("exhausted")  # e.g. next(it) without default inside the user function
     if kind == "FileNotFoundError":
         return FileNotFoundError(2, "no such thing", "some/file")  # OSError's special constructor
+    if kind == "WorkerDeath":
+        from .kernel import SimWorkerDeath
+
+        return SimWorkerDeath()  # not an exception the user code raises: the worker process is gone
     raise ValueError(kind)
 
 
@@ -217,6 +223,10 @@ class FaultPlan:
                     continue
             elif f.args is not None and f.args != args:
                 continue
+            if f.exc_kind == "WorkerDeath":
+                cur = sim.kernel.current if sim.kernel.in_sim_thread() else None
+                if cur is None or not isinstance(cur.proc, tuple):
+                    continue  # only a pool worker process can die under the parent
             f.fired += 1
             sim.probe("user_fault_fired")
             if self.shared is not None:
@@ -236,7 +246,8 @@ class Fn:
     """
 
     def __init__(self, name, params, defaults=None, n_out=1, out_shape=None, tag="", none_mod=0, seq_out=False,
-                 outer=None, dict_out=None, result_like=False, public_name=None):
+                 outer=None, dict_out=None, result_like=False, public_name=None, data_like=False):
+        self.data_like = data_like  # wrap the single result in an object that has _data/_mask attributes
         self.public_name = public_name  # what pipefunc sees as __name__ (several functions may share it); logs use `name`
         self.result_like = result_like  # wrap the single result in an object that has a .result() method
         self.outer = dict(outer or {})  # own parameter name -> name in the pipeline (PipeFunc renames); logs use the latter
@@ -265,7 +276,7 @@ class Fn:
 
     def __reduce__(self):
         return (Fn, (self.name, self.params, self.sig_defaults, self.n_out, self.out_shape, self.tag, self.none_mod,
-                     self.seq_out, self.outer, self.dict_out, self.result_like, self.public_name))
+                     self.seq_out, self.outer, self.dict_out, self.result_like, self.public_name, self.data_like))
 
     def _one(self, fname, args):
         if self.out_shape is None:
@@ -285,6 +296,8 @@ class Fn:
                 return (Term(base, args, "a"), Term(base, args, "b"))
             if self.result_like and self.out_shape is None:
                 return ResultLike(Term(base, args))
+            if self.data_like and self.out_shape is None:
+                return DataLike(Term(base, args))
             return self._one(base, args)
         vals = tuple(self._one(f"{base}#{k}", args) for k in range(self.n_out))
         if self.dict_out:
@@ -337,6 +350,28 @@ class ResultLike:
 
     def __reduce__(self):
         return (ResultLike, (self.term,))
+
+
+class DataLike:
+    """A user value with `_data` / `_mask` attributes of its own (a small container class): still just a value - NumPy's
+    masked-array machinery must not unwrap it."""
+
+    def __init__(self, term):
+        self.term = term
+        self._data = [term, "payload"]
+        self._mask = False
+
+    def __eq__(self, other):
+        return isinstance(other, DataLike) and other.term == self.term
+
+    def __hash__(self):
+        return hash(("DataLike", self.term))
+
+    def __repr__(self):
+        return f"DataLike({self.term!r})"
+
+    def __reduce__(self):
+        return (DataLike, (self.term,))
 
 
 class ResFn:
